@@ -18,41 +18,15 @@ pub fn get() -> FunctionDefinitions {
                     if let Ok(size) = TryInto::<usize>::try_into(n) {
                         match self.0.apply(value, 0) {
                             Some(JsonValue::Object(map)) => {
-                                let map = if size > map.len() {
-                                    map
-                                } else {
-                                    let mut new_map = IndexMap::with_capacity(size);
-                                    for (k, v) in map {
-                                        new_map.insert(k, v);
-                                        if new_map.len() == size {
-                                            break;
-                                        }
-                                    }
-                                    new_map
-                                };
+                                let map: IndexMap<_, _> = map.into_iter().take(size).collect();
                                 Some(map.into())
                             }
                             Some(JsonValue::Array(vec)) => {
-                                let vec = if size > vec.len() {
-                                    vec
-                                } else {
-                                    let mut new_vec = Vec::with_capacity(size);
-                                    for i in vec {
-                                        new_vec.push(i);
-                                        if new_vec.len() == size {
-                                            break;
-                                        }
-                                    }
-                                    new_vec
-                                };
+                                let vec: Vec<_> = vec.into_iter().take(size).collect();
                                 Some(vec.into())
                             }
                             Some(JsonValue::String(str)) => {
-                                let str = if size > str.len() {
-                                    str
-                                } else {
-                                    str[..size].into()
-                                };
+                                let str: String = str.chars().take(size).collect();
                                 Some(str.into())
                             }
                             _ => None,
